@@ -726,6 +726,19 @@ func genICase(rt *rapid.T, maxReqs int) *ICase {
 			rq.Custom = `"custom-` + id + `,x" , ,`
 			rq.Referer = "http://ref/" + id + "?a=1,2&b=x;y"
 		}
+		// long header values, at and around the sizes a limit would pick
+		if rapid.IntRange(0, 5).Draw(rt, "hdrlong") == 0 {
+			n := rapid.SampledFrom([]int{255, 256, 1023, 1024, 1025, 2048, 4095, 4096, 4097, 8192}).Draw(rt, "hdrlen")
+			pad := func(v string) string { return v + "-" + strings.Repeat("x", n-len(v)-1) }
+			switch rapid.IntRange(0, 2).Draw(rt, "hdrwhich") {
+			case 0:
+				rq.Custom = pad("custom-" + id)
+			case 1:
+				rq.UA = pad("agent-" + id)
+			default:
+				rq.Referer = pad("http://ref/" + id)
+			}
+		}
 		// request targets with escaped bytes: logged as the client sent them (URL.String()), not decoded
 		switch rapid.IntRange(0, 5).Draw(rt, "urlform") {
 		case 0:
